@@ -99,6 +99,25 @@ CHECKS = {
    text="Binding invariants of the published per-node record (one pod per address, one address per family per pod, dual stack on one interface, new bindings only on Valid addresses of InUse interfaces, RDMA segregation, take-over of reported addresses) are evaluated by TLC on every recorded Node CR and every reconcile step.",
    design_ref="DESIGN.md 4.3, 5 (C02), 11.6",
    note="Fresh reads (no informer staleness); environment with cloud drift and partially bound initial records; EFLO path not covered."),
+
+ "C04": dict(
+   technique="TLA+ spec Daemon.tla (RPC handlers at effect-point grain, disk/memory records, pool owners, Enforce-tagged guards) model-checked by TLC; TLC-simulated + random scenarios drive the real networkService (real eni.Manager/Local, real bolt storage, fake cloud and API server) with gates inside the handlers and cancellation at the k-th touch of the request context; traces validated by TLC",
+   category="model_checking",
+   text="Stale/duplicate/concurrent CNI requests: 'processing' exclusion, stale container IDs neither release nor return the allocation, repeated ADD returns the same address, repeated DEL is a no-op, a failed ADD hands back what it took (and only that) - as guards on every recorded handler step and as owner/record agreement at every quiescent observation.",
+   design_ref="DESIGN.md 4.2, 5 (C04), 11.6",
+   note="Local (non-CRD) IPAM mode, IPv4; DB write failures not injected; a rejected trace is re-validated with no property enforced to separate machinery faults (exit 2) from violations."),
+ "C05": dict(
+   technique="same harness as C04 plus crash-point enumeration: at every effect point of every scenario a second daemon is built from copies of the bolt file and the cloud state through the real start-up path and probed (owners, follow-up ADD for every pod); SIGKILL sampling of a child streaming Put/Delete; judged by Daemon.tla's Crash/Restart/Probe actions with Enforce={C05}",
+   category="model_checking",
+   text="Acknowledged ADDs keep their address across a restart at any effect point, the address is not offered to another pod, unacknowledged requests' addresses become reusable, acknowledged ADD/DEL are on disk after a kill.",
+   design_ref="DESIGN.md 4.2, 5 (C05), 11.6",
+   note="bolt's page-level crash consistency is only sampled by SIGKILL (no power-loss model); the builder's orchestration lines around the start-up pieces are replicated in the harness."),
+ "C09": dict(
+   technique="same harness as C04 inside a private network namespace: (stored records x pod states) matrices, sticky pods, API lookup errors, detached interfaces, three GC passes, GC against gated requests; judged by Daemon.tla's GC actions with Enforce={C09}",
+   category="model_checking",
+   text="Vanished pods are collected within two passes, existing pods and pods with a request in flight never, one uncleanable record does not block the others, repeated passes are idempotent.",
+   design_ref="DESIGN.md 4.2, 5 (C09), 11.6",
+   note="CRD-mode cleanRuntimeNode is covered by the Ipam family (C03), not here; netlink errors other than a missing device are not injected; needs root for unshare -n."),
 }
 
 NA_REASON = "not built yet in this round of work; see DESIGN.md section 10 (build order) - the property is planned to be decided by the TLA+ pipeline"
